@@ -68,13 +68,15 @@ pub enum Form {
 }
 
 pub fn forms(lang: &Lang) -> Vec<Form> {
-    let mut f: Vec<Form> = (0..lang.line.len()).map(Form::Line).collect();
+    let mut f: Vec<Form> = (0..lang.line.len().min(2)).map(Form::Line).collect();
     if lang.block.is_some() {
         f.push(Form::Block);
     }
     if lang.markdown {
         f.extend([Form::MdRef(0), Form::MdRef(1), Form::MdRef(2), Form::MdHtml]);
     }
+    // (third and later line-comment openers come last: stored cases keep their meaning)
+    f.extend((2..lang.line.len()).map(Form::Line));
     f
 }
 
@@ -402,6 +404,8 @@ struct CommentSeg {
     lead: bool,
     trail: bool,
     star: bool,
+    /// Markdown definitions: a destination holding characters of more than one byte
+    mb_dest: bool,
     doc: bool,
     container: u8,
     /// the (one-line) block comment sits inside the interpolated part of a string literal
@@ -567,7 +571,7 @@ pub fn build_raw(lang: &Lang, events: &[Ev], crlf: bool) -> Built {
                     let one_stmt_per_line = matches!(lang.id, "go" | "swift" | "kotlin");
                     let trail = place.trail && ((form == Form::Block && has_inline && !(lead && one_stmt_per_line)) || form == Form::MdHtml);
                     let interp = place.interp && form == Form::Block && crate::langs::interp_wrapper(lang.id).is_some();
-                    segs.push(Seg::Comment(CommentSeg { form, indent: (place.indent % 9) as usize, lead: lead && !interp, trail: trail && !interp, star: place.star && lang.star, doc: place.doc && (lang.star || lang.markdown || lang.id == "ruby") && !interp, container: place.container % 5, interp, parts: part_for(form) }));
+                    segs.push(Seg::Comment(CommentSeg { form, indent: (place.indent % 9) as usize, lead: lead && !interp, trail: trail && !interp, star: place.star && lang.star, mb_dest: place.star && lang.markdown, doc: place.doc && (lang.star || lang.markdown || lang.id == "ruby") && !interp, container: place.container % 5, interp, parts: part_for(form) }));
                 }
                 prev_was_tag = true;
             }
@@ -581,7 +585,7 @@ pub fn build_raw(lang: &Lang, events: &[Ev], crlf: bool) -> Built {
                 let k = *text as usize % (NOISE.len() + NOISE_UNCLOSED.len());
                 let raw = if k < NOISE.len() { NOISE[k] } else { NOISE_UNCLOSED[k - NOISE.len()] };
                 let t = sanitise_text(lang, form, raw);
-                segs.push(Seg::Comment(CommentSeg { form, indent: (*indent % 9) as usize, lead: false, trail: false, star: false, doc: false, container: 0, interp: false, parts: vec![Part::Text(t)] }));
+                segs.push(Seg::Comment(CommentSeg { form, indent: (*indent % 9) as usize, lead: false, trail: false, star: false, mb_dest: false, doc: false, container: 0, interp: false, parts: vec![Part::Text(t)] }));
                 prev_was_tag = false;
             }
             Ev::Decoy { tpl, tag } => {
@@ -680,7 +684,9 @@ pub fn build_raw(lang: &Lang, events: &[Ev], crlf: bool) -> Built {
                     Form::MdRef(k) => {
                         let (o, cl) = [("(", ")"), ("\"", "\""), ("'", "'")][k.min(2) as usize];
                         let split_title = c.doc && !in_container;
-                        (if split_title { format!("[//]: #{nl}{ind}  {o}") } else { format!("[//]: # {o}") }, cl.to_string())
+                        // (`star` in a Markdown file, one-line head: a destination with characters of more than one byte)
+                        let dest = if c.mb_dest && !split_title { "#résumé-注" } else { "#" };
+                        (if split_title { format!("[//]: #{nl}{ind}  {o}") } else { format!("[//]: {dest} {o}") }, cl.to_string())
                     }
                     Form::MdHtml => ("<!--".into(), "-->".into()),
                 };
